@@ -184,8 +184,8 @@ impl Check for C15 {
     }
     fn lanes(&self, tier: Tier) -> Vec<(&'static str, usize, usize)> {
         match tier {
-            Tier::Quick => vec![("trees", 3000, 300)],
-            Tier::Thorough => vec![("trees", 150_000, 300)],
+            Tier::Quick => vec![("trees", 9_000, 300)],
+            Tier::Thorough => vec![("trees", 180_000, 300)],
         }
     }
     fn extra(&self, tier: Tier, st: &mut crate::runner::Stats, _known: &dyn Fn(&str) -> bool, _threads: usize) -> Result<serde_json::Value, Failure> {
